@@ -31,7 +31,12 @@ type Sess struct {
 	txSeq int
 	// Panics counts calls that panicked (recorded as events no action admits).
 	Panics int
+	// OnHang runs before the process exits after a detected deadlock.
+	OnHang func()
 }
+
+// HangAfter is the watchdog period for one library call.
+var HangAfter = 60 * time.Second
 
 // Tx wraps a transaction.
 type Tx struct {
@@ -47,6 +52,19 @@ func (s *Sess) now() int64 { return s.R.Rel(time.Now().Unix()) }
 // guard runs f, converting a panic into a recorded outcome.
 func (s *Sess) guard(e Ev, f func()) {
 	e["t0"] = s.now()
+	// a sequential driver that does not return from a library call for
+	// HangAfter is deadlocked: record it as the call's outcome (an event no
+	// action admits) and end the run; the orchestrator re-executes the seed
+	wd := time.AfterFunc(HangAfter, func() {
+		e2 := Ev{"op": e["op"], "panic": "deadlock: the call did not return within " + HangAfter.String(), "err": true, "t0": e["t0"], "t1": e["t0"]}
+		s.R.Emit(e2)
+		s.R.Close()
+		if s.OnHang != nil {
+			s.OnHang()
+		}
+		os.Exit(0)
+	})
+	defer wd.Stop()
 	defer func() {
 		if r := recover(); r != nil {
 			s.Panics++
@@ -107,6 +125,42 @@ func (s *Sess) Merge() error {
 		if err != nil {
 			e["msg"] = err.Error()
 		}
+	})
+	return err
+}
+
+// MergeObs calls DB.Merge and, in the same event, records the full
+// observation of the running database (o) and of a shadow reopen (so).
+func (s *Sess) MergeObs(tmp string) error {
+	var err error
+	e := Ev{"op": "merge"}
+	empty := Ev{"kv": []Ev{}, "ls": []Ev{}, "st": []Ev{}, "zs": []Ev{}}
+	e["o"], e["so"], e["serr"], e["operr"] = empty, empty, false, false
+	s.guard(e, func() {
+		err = s.DB.Merge()
+		e["err"] = err != nil
+		if err != nil {
+			e["msg"] = err.Error()
+		}
+		o, oerr := ObserveDB(s.DB, s.U)
+		if oerr != nil {
+			e["operr"] = true
+			e["omsg"] = oerr.Error()
+		} else {
+			e["o"] = o
+		}
+		os.RemoveAll(tmp)
+		if cerr := CopyDir(s.Opt.Dir, tmp); cerr != nil {
+			panic("harness: copy failed: " + cerr.Error())
+		}
+		so, serr := ObserveCopy(s.Opt, tmp, s.U)
+		if serr != nil {
+			e["serr"] = true
+			e["smsg"] = serr.Error()
+		} else {
+			e["so"] = so
+		}
+		os.RemoveAll(tmp)
 	})
 	return err
 }
